@@ -821,9 +821,11 @@ pub fn warm_kernel() -> String {
     let s3 = js.sload(CALLER, U256::from(1), &mut db).unwrap();
     out += &format!("[sload present value got={}{}] ", s3.data, if s3.data == U256::from(9) && !s3.is_cold { "" } else { " MISMATCH" });
     js.state.get_mut(&CALLER).unwrap().storage.get_mut(&U256::from(1)).unwrap().mark_cold();
+    let jr0 = js.journal.last().unwrap().len();
     let s4 = js.sload(CALLER, U256::from(1), &mut db).unwrap();
+    let jr1 = js.journal.last().unwrap().len();
     let s5 = js.sload(CALLER, U256::from(1), &mut db).unwrap();
-    out += &format!("[sload re-cooled first={} second={}{}] ", s4.is_cold, s5.is_cold, if s4.is_cold && !s5.is_cold { "" } else { " MISMATCH" });
+    out += &format!("[sload re-cooled first={} second={} journal={}->{}{}] ", s4.is_cold, s5.is_cold, jr0, jr1, if s4.is_cold && !s5.is_cold && jr1 == jr0 + 1 { "" } else { " MISMATCH" });
     // an account created in this transaction reads zero without asking the database
     js.state.get_mut(&CALLER).unwrap().mark_created();
     let jc0 = js.journal.last().unwrap().len();
@@ -924,6 +926,10 @@ pub fn create_collision(func: &str) -> String {
         let mut c = EvmContext::new(StorageEverywhere(info, created));
         c.inner.journaled_state = JournaledState::new(SpecId::OSAKA, HashSet::default());
         let _ = c.inner.journaled_state.load_account(CALLER, &mut c.inner.db);
+        if name == "funded" {
+            // this shape is tried with the target already warm (access list, an earlier BALANCE, a retried CREATE2)
+            let _ = c.inner.journaled_state.load_account(created, &mut c.inner.db);
+        }
         let r = if func == "make_create_frame" {
             let inputs = CreateInputs { caller: CALLER, scheme: CreateScheme::Create, value: U256::ZERO, init_code: Bytes::from_static(&[0x00]), gas_limit: 100_000 };
             c.make_create_frame(SpecId::OSAKA, &inputs).expect("no db error")
@@ -971,6 +977,19 @@ pub fn create_guard() -> String {
         };
         out += &format!("[create_guard code={} nonce={} storage={} result={:?} depth={}->{} target_balance={} caller_balance={}{}] ", code, nonce, storage,
             r.as_ref().map(|_| "checkpoint").map_err(|e| format!("{e:?}")), depth0, js.depth(), t.info.balance, c.info.balance, if ok { "" } else { " MISMATCH" });
+    }
+    // a contract that self-destructed earlier in the transaction keeps code and nonce until the transaction ends: a creation onto it collides
+    {
+        let mut db = CacheDB::new(EmptyDB::default());
+        db.insert_account_info(CALLER, AccountInfo { nonce: 0, balance: U256::from(100), code_hash: revm::primitives::KECCAK_EMPTY, code: None });
+        let code_bc = Bytecode::new_legacy(Bytes::from_static(&[0x00]));
+        db.insert_account_info(target, AccountInfo { nonce: 1, balance: U256::from(3), code_hash: code_bc.hash_slow(), code: Some(code_bc) });
+        let mut js = JournaledState::new(SpecId::SHANGHAI, HashSet::default());
+        let _ = js.load_account(CALLER, &mut db);
+        let _ = js.load_account(target, &mut db);
+        let _ = js.selfdestruct(target, CALLER, &mut db).unwrap();
+        let r = js.create_account_checkpoint(CALLER, target, false, U256::ZERO, SpecId::SHANGHAI);
+        out += &format!("[create_guard self-destructed target with code result={:?}{}] ", r.as_ref().map(|_| "checkpoint").map_err(|e| format!("{e:?}")), if r == Err(InstructionResult::CreateCollision) { "" } else { " MISMATCH" });
     }
     // the endowment overflows the target's balance: the creation fails with OverflowPayment and nothing stays changed
     {
@@ -1026,6 +1045,10 @@ pub fn block_state_kernel() -> String {
         let t = a.touch_empty_eip161();
         out += &format!("[CacheAccount::touch_empty_eip161 from {} transition={}{}] ", name, t.is_some(), tag(t.is_none() && a.account.is_none()));
     }
+    let mut a = CacheAccount { account: Some(PlainAccount { info: empty.clone(), storage: HashMap::default() }), status: St::DestroyedChanged };
+    let t = a.touch_empty_eip161();
+    out += &format!("[CacheAccount::touch_empty_eip161 from DestroyedChanged transition={} account={} status={:?}{}] ", t.is_some(), a.account.is_some(), a.status,
+        tag(matches!(&t, Some(t) if t.previous_status == St::DestroyedChanged && t.storage_was_destroyed) && a.account.is_none() && a.status == St::DestroyedAgain));
     let mut a = CacheAccount { account: Some(PlainAccount { info: empty.clone(), storage: HashMap::default() }), status: St::InMemoryChange };
     let t = a.touch_empty_eip161();
     out += &format!("[CacheAccount::touch_empty_eip161 from InMemoryChange transition={}{}] ", t.is_some(), tag(matches!(&t, Some(t) if t.previous_status == St::InMemoryChange && t.previous_info == Some(empty.clone())) && a.account.is_none() && a.status == St::Destroyed));
@@ -1559,6 +1582,14 @@ pub fn journal_roundtrip() -> String {
         let _ = js.transfer(&b, &a, U256::from(1), db).unwrap();
         js.checkpoint_revert(inner);
         let _ = js.inc_nonce(a);
+    });
+    case("same slot written in the outer and in a committed inner frame, outer reverted", SpecId::CANCUN, &|js, db| {
+        let _ = js.sstore(a, U256::from(1), U256::from(21), db).unwrap();
+        js.tstore(a, U256::from(9), U256::from(91));
+        let _inner = js.checkpoint();
+        let _ = js.sstore(a, U256::from(1), U256::from(22), db).unwrap();
+        js.tstore(a, U256::from(9), U256::from(92));
+        js.checkpoint_commit();
     });
     // an inner revert alone must keep what the outer frame did before it
     {
